@@ -249,11 +249,17 @@ def judge(ctx, pre, ref, out, tol, desc, cls, wit, nontrivial=None):
         elif np.any(_far(lp, ref.logp[idx], tol.lp_abs, tol.lp_rel)):
             j = int(np.argmax(_far(lp, ref.logp[idx], tol.lp_abs, tol.lp_rel)))
             bad("sampled-logprob-mismatch", action=s[j], got=lp[j], want=ref.logp[idx][j])
-        elif "eval_lp" in out:
-            e = f64(out["eval_lp"]).ravel()
-            if np.any(_far(e, lp, 2e-5, 2e-5)):
-                j = int(np.argmax(_far(e, lp, 2e-5, 2e-5)))
-                bad("evaluate-action-disagrees-with-action-and-value", action=s[j], got=e[j], want=lp[j])
+        else:
+            if "eval_lp" in out:
+                e = f64(out["eval_lp"]).ravel()
+                if np.any(_far(e, lp, 2e-5, 2e-5)):
+                    j = int(np.argmax(_far(e, lp, 2e-5, 2e-5)))
+                    bad("evaluate-action-disagrees-with-action-and-value", action=s[j], got=e[j], want=lp[j])
+            # the actions drawn together with their log-probability follow that very (joint) law
+            cnt = np.bincount(idx, minlength=len(ref.p))
+            ctx.monitor("sampled_with_logprob_frequency_cells_checked", len(cnt))
+            if np.any(freq_off(cnt, len(idx), ref.p)):
+                bad("sampled-with-logprob-frequency-off", counts=cnt, n_samples=len(idx), want_p=ref.p)
     return ok[0]
 
 
